@@ -20,7 +20,8 @@ func verifDoc2() (*openapi2.T, map[string]bool) {
 	minLen := verifNondetUint64("minLength")
 	maxf := verifNondetFloat64("maximum")
 	verifAssume(maxf == maxf)
-	doc := &openapi2.T{Swagger: "2.0", Info: openapi3.Info{Title: "t", Version: "1"}, Host: "h.example", BasePath: "/v1", Schemes: []string{"https"},
+	schemes := [][]string{{"https"}, {"http"}, {"https", "http"}}[verifChoose("schemes", 3)]
+	doc := &openapi2.T{Swagger: "2.0", Info: openapi3.Info{Title: "t", Version: "1"}, Host: "h.example", BasePath: "/v1", Schemes: schemes,
 		Definitions: map[string]*openapi2.SchemaRef{"Item": {Value: &openapi2.Schema{Type: &openapi3.Types{"object"}, Properties: openapi2.Schemas{
 			"name": {Value: &openapi2.Schema{Type: &openapi3.Types{"string"}, MinLength: minLen}},
 		}}}},
@@ -186,7 +187,13 @@ func verifH_C17_document() {
 	verifAssert(r200 != nil && r200.Value != nil && *r200.Value.Description == "ok" && r200.Value.Content["application/json"] != nil && r200.Value.Content["application/json"].Schema.Ref == "#/components/schemas/Item", "C17 document: response keeps description and schema reference")
 	item := doc3.Components.Schemas["Item"]
 	verifAssert(item != nil && item.Value != nil && item.Value.Properties["name"].Value.MinLength == doc2.Definitions["Item"].Value.Properties["name"].Value.MinLength, "C17 document: definitions become component schemas with the same constraints")
-	verifAssert(len(doc3.Servers) == 1 && doc3.Servers[0].URL == "https://h.example/v1", "C17 document: host, base path and schemes become servers")
+	serversOK := len(doc3.Servers) == len(doc2.Schemes)
+	for k, sch := range doc2.Schemes {
+		if k < len(doc3.Servers) && doc3.Servers[k].URL != sch+"://h.example/v1" {
+			serversOK = false
+		}
+	}
+	verifAssert(serversOK, "C17 document: host, base path and schemes become servers, one per scheme")
 	if feat["security"] {
 		ss := doc3.Components.SecuritySchemes
 		verifAssert(ss["key"] != nil && ss["key"].Value.Type == "apiKey" && ss["key"].Value.In == "header" && ss["key"].Value.Name == "X-Key" && ss["basic"] != nil && ss["basic"].Value.Type == "http" && ss["basic"].Value.Scheme == "basic" && ss["oauth"] != nil && ss["oauth"].Value.Type == "oauth2" && ss["oauth"].Value.Flows != nil, "C17 document: security definitions become the corresponding schemes")
@@ -214,6 +221,17 @@ func verifH_C17_document() {
 	if err != nil || back == nil {
 		return
 	}
+	sameSchemes := len(back.Schemes) == len(doc2.Schemes)
+	for _, sch := range doc2.Schemes {
+		found := false
+		for _, b := range back.Schemes {
+			if b == sch {
+				found = true
+			}
+		}
+		sameSchemes = sameSchemes && found
+	}
+	verifAssert(sameSchemes && back.Host == "h.example" && back.BasePath == "/v1", "C17 back: host, base path and every scheme come back")
 	bpi := back.Paths["/items/{id}"]
 	verifAssert(bpi != nil && bpi.Get != nil && bpi.Post != nil && bpi.Get.OperationID == "getItem" && bpi.Post.OperationID == "postItem", "C17 back: same paths, methods and operation ids")
 	if bpi == nil || bpi.Get == nil || bpi.Post == nil {
